@@ -350,8 +350,11 @@ def mutation_product(tier: str, stats: Stats) -> list[Violation]:
     programs = [list(c) for k in range(1, n + 1) for c in itertools.permutations(range(len(S)), k)] if tier == 'quick' else \
         [list(c) for k in range(1, 3) for c in itertools.permutations(range(len(S)), k)] + \
         [list(c) for c in itertools.permutations(range(0, len(S), 2), 3)]
-    for obj in objects():
-        for prog in programs:
+    # every program on UPDATE; the one- and two-statement programs also on DELETE (object: null, oldObject set) for a handler that opted in
+    jobs = [(obj, prog, 'UPDATE') for obj in objects() for prog in programs] + \
+           [(obj, prog, 'DELETE') for obj in objects() for prog in programs if len(prog) <= (2 if tier != 'quick' else 1)]
+    for obj, prog, op in jobs:
+        if True:
             captured: dict[str, Any] = {}
 
             def program(p: Any, prog: list[int] = prog) -> None:
@@ -365,20 +368,20 @@ def mutation_product(tier: str, stats: Stats) -> list[Violation]:
                 captured['fns'] = list(p.fns)
             ran: list[str] = []
             reg = kopf.OperatorRegistry()
-            _declare(reg, 'm1', dict(type='mutating', operations=None, subresource=None, filtered=False), 'ok', ran, program=program)
-            req = make_request('UPDATE', None, copy.deepcopy(obj), old=copy.deepcopy(obj))
+            _declare(reg, 'm1', dict(type='mutating', operations=['DELETE'] if op == 'DELETE' else None, subresource=None, filtered=False), 'ok', ran, program=program)
+            req = make_request(op, None, copy.deepcopy(obj) if op != 'DELETE' else None, old=copy.deepcopy(obj))
             names = [S[i][0] for i in prog]
             try:
                 rsp = ctx.serve(reg, req)['response']
             except Exception as e:
                 typechange = any(('scalar' in nm or 'mapping' in nm or 'list' in nm) for nm in names)
-                add('serve-raises', f"object {json.dumps(obj.get('spec'))} program {names}: {type(e).__name__}: {e}",
-                    exc=type(e).__name__, part='mutation', cls='type-change' if typechange and isinstance(e, (TypeError, AttributeError)) else 'other')
+                add('serve-raises', f"{op} of object {json.dumps(obj.get('spec'))} program {names}: {type(e).__name__}: {e}",
+                    exc=type(e).__name__, part='mutation', cls='type-change' if typechange and isinstance(e, (TypeError, AttributeError)) else 'other', op=op)
                 continue
             if captured.get('invalid'):
                 continue
             stats.executions += 1
-            stats.transitions.add(hash((json.dumps(obj, sort_keys=True), tuple(prog))))
+            stats.transitions.add(hash((json.dumps(obj, sort_keys=True), tuple(prog), op)))
             try:
                 expected = rfc7386.strip_nulls(rfc7386.merge(obj, captured.get('fields', {})))
                 for fn in captured.get('fns', []):
